@@ -202,4 +202,18 @@ theorem C17_source_overrides : Generated.iterOverrides = [
     ("futures_core::Stream", ["poll_next", "size_hint"]),
     ("io::Write", ["write", "write_vectored", "flush"])] := by decide
 
+/-- the same for the rayon adaptor: the producer / consumer / folder types define exactly the required methods (no `fold_with`,
+`consume_iter`, `opt_len` of their own), so items are counted one by one where rayon's provided methods hand them over — a
+batching override changes this list -/
+theorem C17_source_rayon_overrides : Generated.rayonOverrides = [
+    ("IndexedParallelIterator", "ProgressBarIter", ["len", "drive", "with_producer"]),
+    ("Producer", "ProgressProducer", ["into_iter", "min_len", "max_len", "split_at"]),
+    ("Iterator", "CountingIter", ["next", "size_hint"]),
+    ("ExactSizeIterator", "CountingIter", ["len"]),
+    ("DoubleEndedIterator", "CountingIter", ["next_back"]),
+    ("Consumer", "ProgressConsumer", ["split_at", "into_folder", "full"]),
+    ("UnindexedConsumer", "ProgressConsumer", ["split_off_left", "to_reducer"]),
+    ("Folder", "ProgressFolder", ["consume", "complete", "full"]),
+    ("ParallelIterator", "ProgressBarIter", ["drive_unindexed"])] := by decide
+
 end IndicatifModel.IterWrap
